@@ -421,7 +421,10 @@ NS_STYLES = ("xtce", "q", "XTCE", "default", "none", "none+xsi")
 
 def ns_prefix_arg(style: str):
     """The xtce_ns_prefix argument that goes with a namespace style."""
-    return {"xtce": "xtce", "q": "q", "XTCE": "XTCE", "default": None, "none": None, "none+xsi": None}[style]
+    # the two 'both' styles bind the XTCE namespace twice on the root (xmlns= and xmlns:xtce=): the elements are spelled one way, the loader
+    # is told the OTHER binding, which names the same namespace
+    return {"xtce": "xtce", "q": "q", "XTCE": "XTCE", "default": None, "none": None, "none+xsi": None,
+            "both:unprefixed,loaded-as-xtce": "xtce", "both:prefixed,loaded-as-default": None}[style]
 
 
 def count_positions(doc: Doc) -> int:
@@ -461,7 +464,8 @@ def render_xml(doc: Doc, style: str = "xtce", comments=None, whitespace: bool = 
     bool_case: spelling of boolean attribute values, 'lower' (true/false), 'title' (True/False) or 'upper' (TRUE/FALSE); the library reads
     all three alike in every place where it reads a boolean."""
     tree = tree or doc_tree(doc)
-    pfx = {"xtce": "xtce:", "q": "q:", "XTCE": "XTCE:", "default": "", "none": "", "none+xsi": ""}[style]
+    pfx = {"xtce": "xtce:", "q": "q:", "XTCE": "XTCE:", "default": "", "none": "", "none+xsi": "",
+           "both:unprefixed,loaded-as-xtce": "", "both:prefixed,loaded-as-default": "xtce:"}[style]
     out = ["<?xml version='1.0' encoding='UTF-8'?>\n"]
     pos = [0]
 
@@ -491,6 +495,8 @@ def render_xml(doc: Doc, style: str = "xtce", comments=None, whitespace: bool = 
                 attrs += f' xmlns="{XTCE_URI}"'
             elif style == "none+xsi":
                 attrs += f' xmlns:xsi="{XSI_URI}"'
+            elif style.startswith("both:"):
+                attrs += f' xmlns="{XTCE_URI}" xmlns:xtce="{XTCE_URI}"'
         tag = pfx + e.tag
         if not e.children and e.text is None:
             if want_comment():   # a comment as the only content of an otherwise empty element
@@ -660,7 +666,12 @@ def build_objects(doc: Doc, style: str = "xtce"):
         if c.base is not None:
             built[c.base].inheritors.append(c.name)
     ns = {"xtce": {"xtce": XTCE_URI}, "q": {"q": XTCE_URI}, "XTCE": {"XTCE": XTCE_URI}, "default": {None: XTCE_URI}, "none": {}, "none+xsi": {}}[style]
-    return definitions.XtcePacketDefinition(container_set=[built[c.name] for c in doc.containers], ns=ns,
+    # the container set is documented as "an iterable": it is handed over as a list, a tuple, a one-shot generator, an iterator or a dict view in
+    # rotation (by a property of the document, so that the choice is reproducible)
+    clist = [built[c.name] for c in doc.containers]
+    form = (len(doc.params) + len(doc.ptypes) + len(doc.containers)) % 5
+    cset = (clist, tuple(clist), (c for c in clist), iter(clist), {c.name: c for c in clist}.values())[form]
+    return definitions.XtcePacketDefinition(container_set=cset, ns=ns,
                                             xtce_ns_prefix=ns_prefix_arg(style) if ns else None,
                                             root_container_name=doc.root, space_system_name=doc.name, date=doc.date)
 
